@@ -54,8 +54,8 @@ def cursor_model(trees_quick, trees_thorough, sample_quick, extend_quick):
             for line in r["out"].splitlines():
                 if line.startswith('"HIST '):
                     body = line[len('"HIST '):-1].replace('\\"', '"')
-                    steps = re.findall(r'<<"(\w+)", (\d+), (-?\d+)>>', body)
-                    hists.append([[a, int(b), int(c)] for a, b, c in steps])
+                    steps = re.findall(r'<<"(\w+)", (\d+), (-?\d+), (\d+)>>', body)
+                    hists.append([[a, int(b), int(c), int(d)] for a, b, c, d in steps])
             nstates = len(hists)
             if tier == "quick" and len(hists) > sample_quick:
                 hists = rnd.sample(hists, sample_quick)
@@ -163,8 +163,11 @@ PLANS = {
                 mc=[MC("MCBlock", "MCBlock.cfg", workers=8), MC("MCBytes", "MCBytes.cfg", workers=8)],
                 gen=[G("seeks", 64, 2000, "TraceCursor", "TraceCursor.cfg")]),
     "C04": dict(level="model_checking", assumptions=TRUST,
+                mc=[MC("MCIter", "MCIter_quick.cfg", workers=4), MC("MCIter", "MCIter.cfg", workers=4, quick=False)],
                 gen=[G("ranges", 96, 3000, "TraceIter", "TraceIter.cfg")]),
     "C05": dict(level="model_checking", assumptions=TRUST,
+                mc=[MC("MCIter", "MCIter_quick.cfg", workers=4), MC("MCIter", "MCIter.cfg", workers=4, quick=False),
+                    MC("MCBytes", "MCBytes.cfg", workers=8)],
                 gen=[G("prefixes", 96, 3000, "TraceIter", "TraceIter.cfg")]),
     "C10": dict(level="model_checking", assumptions=TRUST + ["V1 files are built by replacing the V2 trailer of an index_levels=0 file with an independently encoded 21-byte V1 trailer"],
                 gen=[G("roundtrip_v1", 150, 5000, "TraceCursor", "TraceCursor.cfg"),
